@@ -288,12 +288,17 @@ def run_case(case, R):
             t = space.U0()[i]
             R.state(("u0", i))
             render_and_check(R, space.scalar_spec(("q0", "q1"), t), str(t), DISPLAY, SIGNS, ["0-d"])
+            if len(t) >= 2:
+                # the same polynomial with its terms STORED in another order (as direct construction leaves them)
+                render_and_check(R, space.scalar_spec(("q0", "q1"), t, "i8", "unsorted"), str(t) + " stored unsorted", DISPLAY, SIGNS[:2], ["0-d", "unsorted_storage"])
         R.sample({"polynomial": str(t), "display_settings": 8, "sign_pairs": SIGNS})
     elif k == "u3":
         for i in range(case["i0"], case["i1"]):
             t = space.U2()[i]
             R.state(("u3", i))
             render_and_check(R, space.scalar_spec(("q0", "q2", "q10"), t), str(t), DISPLAY, SIGNS[:3], ["0-d", "three_names"])
+            if len(t) >= 2:
+                render_and_check(R, space.scalar_spec(("q0", "q2", "q10"), t, "i8", "unsorted"), str(t) + " stored unsorted", DISPLAY, SIGNS[:1], ["0-d", "three_names", "unsorted_storage"])
     elif k == "coef":
         for label, sp in coefficient_variants()[case["i0"]:case["i1"]]:
             R.state(("coef", label))
@@ -302,8 +307,8 @@ def run_case(case, R):
     elif k == "arrays":
         shape = tuple(case["s"])
         R.state(("arrays", shape))
-        for var in ("canon", "T", "zeroterm", "rev"):
-            if var == "T" and len(shape) < 2:
+        for var in ("canon", "T", "zeroterm", "rev", "unsorted", "unsorted+T"):
+            if var.endswith("T") and len(shape) < 2:
                 continue
             render_and_check(R, C09.tagged(shape, variant=var), f"tagged{shape}/{var}", DISPLAY, [SIGNS[0], SIGNS[1], SIGNS[3]], ["array"])
         pool = [[], [((1, 0), -1)], [((0, 0), 1)], [((1, 1), 2.5), ((0, 2), -1.0)], [((2, 0), 1), ((0, 0), -3)], [((0, 1), 1), ((1, 0), -1), ((0, 0), 1)]]
